@@ -133,6 +133,12 @@ impl vstd::std_specs::convert::FromSpecImpl<Arr> for Variable {
     open spec fn from_spec(v: Arr) -> Variable { Variable::Array(v) }
 }
 impl From<Arr> for Variable { fn from(v: Arr) -> (r: Variable) { Variable::Array(v) } }
+// From<Arc<[Variable]>> for Variable builds an array of the elements (Array::from computes the element type)
+impl vstd::std_specs::convert::FromSpecImpl<Tup> for Variable {
+    open spec fn obeys_from_spec() -> bool { true }
+    open spec fn from_spec(v: Tup) -> Variable { Variable::Array(Arr { elems: v.elems }) }
+}
+impl From<Tup> for Variable { fn from(v: Tup) -> (r: Variable) { Variable::Array(Arr { elems: v.elems }) } }
 
 // `Array` associated functions used by operator bodies (src/variable/array.rs) — not verified here
 pub struct Array {}
@@ -191,14 +197,12 @@ impl Variable {
 pub struct Type { pub id: Ghost<int> }                 // src/variable/type.rs (HashSet-based unions: outside Verus)
 pub struct Params { pub id: Ghost<int> }
 pub struct AnonymousFunction { pub id: Ghost<int> }
-pub struct ArrayIns { pub id: Ghost<int> }             // instruction::array::Array
 pub struct FieldAccess { pub id: Ghost<int> }
 pub struct FunctionDeclaration { pub id: Ghost<int> }
 pub struct MutIns { pub id: Ghost<int> }               // instruction::mut::Mut
 pub struct Reduce { pub id: Ghost<int> }
 pub struct Slicing { pub id: Ghost<int> }
 pub struct StructIns { pub id: Ghost<int> }            // instruction::struct::Struct
-pub struct TupleIns { pub id: Ghost<int> }             // instruction::tuple::Tuple
 pub struct TupleAccess { pub id: Ghost<int> }
 pub struct TypeFilter { pub id: Ghost<int> }
 pub struct LocalVariable { pub id: Ghost<int> }
